@@ -427,7 +427,10 @@ def simulate(run):
             run.rule("R3")
             run.violate("R3", "closed-before-cooldown", "the fail-safe closed %.3f s after it opened, cool-down %d s" % (run.now - ref["opened_at"], cooldown))
             return
-        if (not real_open) and ref["since"] >= enter_after:
+        # the count is cleared by a successful call through the gateway and by nothing else:
+        # it also stands when the cool-down has passed, so a gateway failure that brings or
+        # keeps it at the threshold leaves the breaker open, whenever it is recorded
+        if (not real_open) and (ref["since"] >= enter_after or (last_was_gateway_failure and ref["strict"] >= enter_after)):
             if ref["lenient"] < enter_after:
                 run.violate("R2", "failure-count-cleared-by-call-that-bypassed-the-gateway",
                             "%d consecutive gateway-side failures were seen (threshold %d) but the fail-safe is still closed: a call that was not routed through the gateway cleared the count" % (ref["since"], enter_after))
@@ -481,6 +484,7 @@ def simulate(run):
                     run.violate("R4", "application-exception-swallowed", "the direct retry after a gateway failure raised an application error that was swallowed")
                 elif resp is None or resp.tag != "direct":
                     run.violate("R4", "gateway-failure-not-retried-directly", "after a gateway-side failure the application did not get the provider's direct response (got %r)" % (getattr(resp, "tag", None),))
+                ref_closed()  # the call may have been in flight for longer than a cool-down: the failure is recorded now
                 ref_failure()
             elif outcome in ("app-exception", "timeout", "keyboard-interrupt"):
                 run.fault("application_exception")
@@ -544,11 +548,19 @@ def simulate(run):
             # open the breaker; then A ends with an application-visible exception
             host = hosts_pub[tp.choose(2)]
             k = tp.rng(1, enter_after + 1)
-            final = ["timeout", "app-exception", "ok"][tp.choose(3)]
+            final = ["timeout", "app-exception", "ok", "connection-error", "error-header"][tp.choose(5)]
+            # A hangs in the gateway for longer than the cool-down and fails there in the end:
+            # a gateway failure recorded after the cool-down, with no call in between
+            hang = 0.0
+            if final in ("connection-error", "error-header") or tp.chance(1, 4):
+                hang = float(cooldown) + [0.0, 0.001, 1.0][tp.choose(3)]
 
-            def others(k=k):
+            def others(k=k, hang=hang):
                 for j in range(k):
                     one_call("api.pub.com", ["connection-error", "error-header"][j % 2], "ok", "nested%d" % j)
+                if hang:
+                    run.now += hang
+                    run.fault("in_flight_call_outlasts_the_cooldown")
 
             run.fault("in_flight_call_overlaps_breaker_opening")
             one_call(host, final, "ok", "inflight%d" % op, inflight=others)
